@@ -286,9 +286,54 @@ func (c *mrCtx) rangedValuesDistinct() bool {
 		return false
 	}
 	obj, ok := c.pk.TypesInfo.ObjectOf(id).(*types.Var)
-	if !ok || obj.Parent() != c.pk.Types.Scope() {
+	if !ok {
 		return false
 	}
+	if obj.Parent() == c.pk.Types.Scope() {
+		return c.globalValuesDistinct(obj)
+	}
+	// a parameter of an unexported function: every call in the package passes a package-level map whose
+	// values are pairwise distinct constants
+	pidx := -1
+	i := 0
+	for _, f := range c.fd.Type.Params.List {
+		for _, n := range f.Names {
+			if c.pk.TypesInfo.ObjectOf(n) == obj {
+				pidx = i
+			}
+			i++
+		}
+	}
+	if pidx < 0 || c.fd.Recv != nil || ast.IsExported(c.fd.Name.Name) {
+		return false
+	}
+	self := c.pk.TypesInfo.ObjectOf(c.fd.Name)
+	calls, good := 0, 0
+	for _, f := range c.pk.Syntax {
+		ast.Inspect(f, func(n ast.Node) bool {
+			call, ok := n.(*ast.CallExpr)
+			if !ok {
+				return true
+			}
+			if fid, ok := ast.Unparen(call.Fun).(*ast.Ident); ok && c.pk.TypesInfo.ObjectOf(fid) == self {
+				calls++
+				if pidx < len(call.Args) {
+					if aid, ok := ast.Unparen(call.Args[pidx]).(*ast.Ident); ok {
+						if g, ok := c.pk.TypesInfo.ObjectOf(aid).(*types.Var); ok && g.Parent() == c.pk.Types.Scope() && c.globalValuesDistinct(g) {
+							good++
+						}
+					}
+				}
+			}
+			return true
+		})
+	}
+	return calls > 0 && calls == good
+}
+
+// globalValuesDistinct: the package-level map is assigned once, from a composite literal whose values are
+// pairwise distinct constants, and never stored into.
+func (c *mrCtx) globalValuesDistinct(obj *types.Var) bool {
 	var lits []*ast.CompositeLit
 	assigns := 0
 	for _, f := range c.pk.Syntax {
